@@ -12,6 +12,7 @@ import (
 	"os"
 	"sort"
 	"strings"
+	"sync/atomic"
 	"time"
 
 	"golang.org/x/tools/go/ssa"
@@ -524,6 +525,10 @@ var forkProfile map[string]int
 // checkDeadline: wall-clock limit of the running check (set by runCheck; zero = none).
 var checkDeadline time.Time
 
+// timeBudgetHit: some abstract run of this check was cut off by a wall-clock limit. Whatever the rule that started the run
+// made of it, the check as a whole is then undecided (Ctx.Finish) — a cut-off run must never read as "nothing found".
+var timeBudgetHit atomic.Bool
+
 func firstNonPhi(b *ssa.BasicBlock) int {
 	for i, in := range b.Instrs {
 		if _, ok := in.(*ssa.Phi); !ok {
@@ -739,12 +744,14 @@ func (ex *Exec) execFrom(fr *Frame, st *State, b *ssa.BasicBlock, idx int, prev 
 				ex.started = now
 			} else if now.Sub(ex.started) > ex.MaxTime {
 				ex.Budget = true
+				timeBudgetHit.Store(true)
 				return nil
 			}
 			if !checkDeadline.IsZero() && now.After(checkDeadline) {
 				// the whole check is over its time budget: every further run gives up at once (undecided), so that the
 				// check ends with a verdict and evidence instead of running on
 				ex.Budget = true
+				timeBudgetHit.Store(true)
 				ex.unsupported("time budget of the check exceeded")
 				return nil
 			}
